@@ -31,6 +31,6 @@ PROPERTIES
   Act_X18_DupOrphan
   Act_X18_DupResult
   Act_X18_LateAnswer
-  Act_X18_WrapStale
+  Act_X18_WrapRejected
   Act_X18_ZeroHeightQueue
 CHECK_DEADLOCK FALSE
